@@ -78,6 +78,9 @@ func genCContainer(x *sched.Exec) ccScenario {
 	sc := ccScenario{}
 	if r.Intn(2) == 0 {
 		sc.M = 2 + r.Intn(2)
+		if r.Intn(3) == 0 {
+			sc.M = -sc.M // nil-guard comparator: false whenever an argument is the zero value
+		}
 	}
 	sc.Init = r.Intn(3)
 	n := 2 + r.Intn(4)
@@ -92,8 +95,11 @@ func genCContainer(x *sched.Exec) ccScenario {
 				op = ccOp{Op: "set", V: r.Intn(5)}
 			case k < 9:
 				op = ccOp{Op: "swap", D: 1 + r.Intn(2)}
-				if r.Intn(4) == 0 && sc.M > 0 {
+				if r.Intn(4) == 0 && sc.M != 0 {
 					op.D = sc.M // result equal under the custom equality: not stored
+					if op.D < 0 {
+						op.D = -op.D
+					}
 				}
 				op.Long = r.Intn(5) < 2
 			case k < 10:
@@ -331,6 +337,9 @@ func (d *ccDriver) Run(x *sched.Exec, raw json.RawMessage) json.RawMessage {
 	if sc.M > 0 {
 		m := sc.M
 		d.ctr = ccontainer.NewCContainerWithEqual(sc.Init, func(a, b int) bool { return a%m == b%m })
+	} else if sc.M < 0 {
+		m := -sc.M
+		d.ctr = ccontainer.NewCContainerWithEqual(sc.Init, func(a, b int) bool { return a != 0 && b != 0 && a%m == b%m })
 	} else {
 		d.ctr = ccontainer.NewCContainer(sc.Init)
 	}
